@@ -70,8 +70,6 @@ class Sched:
         self.double_instances = {'rlock': 0, 'event': 0}
 
     # -- set-up -----------------------------------------------------------------------------------
-    def reset(self):
-        self.__init__()
 
     def spawn(self, name, fn):
         t = T(name, fn)
@@ -152,7 +150,7 @@ class Sched:
         return None
 
     def _handoff(self, me, nxt, where):
-        self.switches.append((me.name if me else None, nxt.name, where))
+        self.switches.append((me.name if me else None, nxt.name, where, me.points if me else 0))
         if nxt.state == 'blocked':
             nxt.state = 'ready'
             nxt.block = None
@@ -169,28 +167,35 @@ class Sched:
         cands = [t for t in self.threads.values() if t.state == 'blocked' and t.block[0] in ('event', 'poll') and t.block[2] is not None]
         if cands:
             t = min(cands, key=lambda x: x.block[2])
+            if self.on_block is not None:
+                self.on_block(self, t)   # a wait that needs its timeout to expire: let the harness judge it first
             t.timed_out = True
             self.virtual_timeouts += 1
             return t
         return None
 
     def _switch_away(self, me, where):
-        """``me`` cannot continue (blocked or done): find somebody else or end the run."""
+        """``me`` cannot continue (blocked or done): find somebody else or end the run.
+        Returns 'handed' (the baton went to another thread: the caller must park without looking at shared state
+        again - the other thread is already running), 'continue' (me may go on) or 'ended'."""
         nxt = self._pick(exclude=me)
+        if nxt is None and me.state == 'blocked' and self._runnable(me):
+            nxt = me   # what it waits for became true meanwhile
         if nxt is None:
             nxt = self._no_runnable(me)
-        if nxt is None or nxt is me:
-            if nxt is me:
-                me.state = 'ready'
-                me.block = None
-                return
+        if nxt is me:
+            me.state = 'ready'
+            me.block = None
+            return 'continue'
+        if nxt is None:
             if all(t.state == 'done' for t in self.threads.values()):
                 self.main_sem.release()
-                return
+                return 'ended'
             self.deadlock = {'blocked': {t.name: _describe(t) for t in self.threads.values() if t.state != 'done'}, 'where': where}
             self._abort_all()
-            return
+            return 'ended'
         self._handoff(me, nxt, where)
+        return 'handed'
 
     def _abort_all(self):
         self.active = False
@@ -216,14 +221,18 @@ class Sched:
 
     def block(self, reason, where):
         me = self._me()
+        if reason[0] == 'cond' and reason[1]():
+            return False
         me.state = 'blocked'
         me.block = reason
         me.timed_out = False
         if self.on_block is not None:
             self.on_block(self, me)
-        self._switch_away(me, where)
-        if me.state == 'blocked' or self.current is not me:
+        how = self._switch_away(me, where)
+        if how == 'handed':
             self._park(me)
+        elif how == 'ended':
+            raise Aborted()
         timed_out = me.timed_out
         me.timed_out = False
         return timed_out
@@ -258,6 +267,15 @@ class Sched:
 
 
 SCHED = Sched()
+
+
+def new_sched():
+    """A fresh scheduler per schedule: threads left over from an aborted schedule keep their own (aborted) object."""
+    global SCHED
+    old = SCHED
+    SCHED = Sched()
+    SCHED.double_instances = old.double_instances
+    return SCHED
 
 
 def _describe(t):
